@@ -46,13 +46,28 @@ func (u *Unit) ghostSet(st *State, name string, elem Sort, idx, v Term) {
 // havocChans: other goroutines may have sent / received / closed: counters only
 // grow, closed only becomes true. Instantiated lazily per channel at use.
 func (u *Unit) havocChans(st *State) {
+	// channels whose closing is tied to a mutex this goroutine holds stay as they are
+	var stable []Term
+	for _, mu := range st.HeldMus {
+		if !strings.HasPrefix(mu.Op, "fa_") {
+			continue
+		}
+		for _, cf := range u.P.closesUnder[mu.Op] {
+			u.Fun(cf.faFn, []Sort{SV}, SV)
+			stable = append(stable, u.load(st, App(cf.faFn, SV, mu.Args[0]), cf.typ))
+		}
+	}
 	for _, n := range []string{"ch_sent", "ch_recv", "ch_closed", "ctx_err"} {
 		key := "ghost:" + n
 		if old, ok := st.Mem[key]; ok {
 			so := st.MemSort[key]
 			nm := u.Fresh("G_"+n, ArrSort(SV, so))
 			st.Mem[key] = nm
-			st.GhostPrev = append(st.GhostPrev, ghostStep{name: n, old: old, new: nm, sort: so})
+			gs := ghostStep{name: n, old: old, new: nm, sort: so}
+			if n == "ch_closed" {
+				gs.stable = stable
+			}
+			st.GhostPrev = append(st.GhostPrev, gs)
 		}
 	}
 }
@@ -74,6 +89,9 @@ func (u *Unit) ghostMonotone(st *State, name string, idx Term) {
 				// only this unit closes an owned channel
 				u.Axiom(Implies(Eq(oc, idx), Eq(o, n)))
 			}
+			for _, sc := range gs.stable {
+				u.Axiom(Implies(Eq(sc, idx), Eq(o, n)))
+			}
 		case "ctx_err":
 			u.Axiom(Implies(Neq(o, NilV), Eq(n, o)))
 		}
@@ -84,6 +102,7 @@ type ghostStep struct {
 	name     string
 	old, new Term
 	sort     Sort
+	stable   []Term // channels that could not be closed during this step (their mutex was held)
 }
 
 // ---------------- channels ----------------
@@ -162,6 +181,25 @@ func (u *Unit) chanRecvEffect(st *State, c Term, t types.Type) (v, ok Term) {
 }
 
 func (u *Unit) chanClose(st *State, fr *Frame, in ssa.Instruction, c Term) {
+	// a channel declared `closes_under mu` may only be closed with mu held
+	if call, ok := in.(*ssa.Call); ok && len(call.Call.Args) == 1 {
+		if ld, ok := call.Call.Args[0].(*ssa.UnOp); ok {
+			if fa, ok := ld.X.(*ssa.FieldAddr); ok {
+				ffn := u.fieldFn(derefType(fa.X.Type()), fa.Field)
+				for mfn, cfs := range u.P.closesUnder {
+					for _, cf := range cfs {
+						if cf.faFn == ffn {
+							obj := u.term(st, fr, fa.X)
+							u.Fun(mfn, []Sort{SV}, SV)
+							held := u.ghostGet(st, "held", SInt, App(mfn, SV, obj))
+							ord := u.siteOrdinal(in, "lock-close")
+							u.Prove(st, u.obligName("lock:"+cf.name, fmt.Sprintf("close#%d", ord)), "lock", u.tagsOr(nil), posOf(in), "channel field "+cf.name+" is closed only with its mutex held", Ge(held, IntLit(1)), nil)
+						}
+					}
+				}
+			}
+		}
+	}
 	u.ghostMonotone(st, "ch_closed", c)
 	closed := u.ghostGet(st, "ch_closed", SBool, c)
 	ord := u.siteOrdinal(in, "chan-closed")
@@ -511,6 +549,7 @@ func (u *Unit) syncCall(st *State, fr *Frame, site ssa.Instruction, name string,
 		st.Assume(Ge(held, IntLit(0)))
 		u.ghostSet(st, "held", SInt, mu, Add(held, IntLit(1)))
 		st.LocksTouched = append(st.LocksTouched, mu)
+		st.HeldMus = append(st.HeldMus, mu)
 		u.onLock(st, fr, mu)
 		if st.LockSnap == nil {
 			st.LockSnap = st.Clone()
@@ -526,6 +565,12 @@ func (u *Unit) syncCall(st *State, fr *Frame, site ssa.Instruction, name string,
 		}
 		u.ghostSet(st, "held", SInt, mu, Sub(held, IntLit(1)))
 		st.LocksTouched = append(st.LocksTouched, mu)
+		for i := len(st.HeldMus) - 1; i >= 0; i-- {
+			if st.HeldMus[i].String() == mu.String() {
+				st.HeldMus = append(append([]Term(nil), st.HeldMus[:i]...), st.HeldMus[i+1:]...)
+				break
+			}
+		}
 		return true
 	case "(*sync.WaitGroup).Add":
 		wg := args[0]
